@@ -246,6 +246,11 @@ impl Run {
         if let Some(p) = self.p.as_mut() {
             if let Err(e) = p.call("listtowers", json!([]), Duration::from_secs(15)) {
                 let stderr = p.stderr_text();
+                // the client may have died at the write the case armed (a retrier writing in the background): that is the
+                // injected fault, not a wedged client; the next step restarts it
+                if matches!(e, CallError::Dead(_)) && stderr.contains("verif: aborting at crash point") && !stderr.contains("panicked at") {
+                    return;
+                }
                 let sig = if stderr.contains("panicked at") { client_panic_sig(&stderr) } else { "client-wedged".into() };
                 self.violations.push(v(&sig, format!("{when}: listtowers is not answered ({e:?}); stderr: {}", stderr.lines().take(3).collect::<Vec<_>>().join(" | "))));
                 return;
